@@ -247,6 +247,13 @@ func TestKeepAliveAndExpiry(t *testing.T) {
 			Phases: []phase{{Kind: phEstablish}, {Kind: phPackFail, N: 2, Variant: "toobig"}}},
 		{Seed: 13, ServerProto: "socks5", BatchMode: "no", ClientProto: "2022-blake3-aes-128-gcm", NATTimeoutMs: 400, NSessions: 1,
 			Phases: []phase{{Kind: phPackFail, N: 2, Variant: "toobig"}}},
+		// (f) several datagrams the kernel refuses to send in one batch, then valid traffic, eviction, restart, Stop
+		{Seed: 16, ServerProto: "socks5", BatchMode: "sendmmsg", ClientProto: "direct", NATTimeoutMs: 400, NSessions: 2,
+			Phases: []phase{{Kind: phRefused, N: 40}, {Kind: phRefused, N: 2}, {Kind: phPauseEvict}, {Kind: phResend}}},
+		{Seed: 17, ServerProto: "none", BatchMode: "sendmmsg", ClientProto: "direct", NATTimeoutMs: 5000, NSessions: 3,
+			Phases: []phase{{Kind: phEstablish}, {Kind: phRefused, N: 40}}},
+		{Seed: 18, ServerProto: "socks5", BatchMode: "no", ClientProto: "direct", NATTimeoutMs: 400, NSessions: 2,
+			Phases: []phase{{Kind: phRefused, N: 8}, {Kind: phPauseEvict}}},
 		// (e) steady traffic (gaps natTimeout/30, 2.5 x natTimeout) keeps the session; silence ends it
 		{Seed: 14, ServerProto: "socks5", BatchMode: "no", ClientProto: "direct", NATTimeoutMs: 500, NSessions: 3,
 			Phases: []phase{{Kind: phSteady}, {Kind: phPauseEvict}, {Kind: phResend}}},
